@@ -1,9 +1,9 @@
 (** C09 — executable model of pgcat's client authentication:
     /repo/src/client.rs [client_entrypoint] (119-318), [get_startup] (321-358),
     [startup_tls] (361-416), [Client::startup] (429-789) and the helpers of
-    /repo/src/messages.rs [parse_params] (184-219), [parse_startup] (223-233),
-    [md5_challenge] (68-88), [md5_hash_password] (236-247), [md5_hash_second_pass]
-    (249-262), [wrong_password] (370-404), [error_response(_terminal)] (324-368), and
+    /repo/src/messages.rs [parse_params] (184-216), [parse_startup] (220-230),
+    [md5_challenge] (68-88), [md5_hash_password] (233-244), [md5_hash_second_pass]
+    (246-259), [wrong_password] (370-404), [error_response(_terminal)] (324-368), and
     /repo/src/auth_passthrough.rs [refetch_auth_hash] (126-138).
 
     Definitions only (all executable).  Lemmas: Proofs.v; property theorems: Props.v.
@@ -20,7 +20,7 @@
       and the result of [pool.validate()], and the rustls handshake are fields of [auth_env].
     - Rust panics are explicit outcomes ([TaskPanic]): [vec![0u8; len as usize - 4]] with
       [len < 4] (subtract-with-overflow in a dev build, capacity overflow in release),
-      [bytes.get_i32()] / [get_u8()] past the end (bytes-1.4 [Buf] asserts),
+      [bytes.get_i32()] past the end of a first packet of 4..7 bytes (bytes-1.4 [Buf] asserts),
       [(len - 4) as usize] with [len < 4] in the password reader. *)
 From Coq Require Import ZArith NArith List Bool Lia.
 Import ListNotations.
@@ -99,29 +99,102 @@ Definition startup_alloc (s : bytes) : Z :=
   | _ => 0
   end.
 
-(** ** [parse_params] / [parse_startup] (messages.rs:184-233) *)
+(** ** [parse_params] / [parse_startup] (messages.rs:184-230, as of commit 5c1953d) *)
 
-(** [tmp.push(c as char)]: the byte is taken as the Unicode scalar U+00[c] and stored in a
-    [String], i.e. as UTF-8: one byte below 0x80, two bytes otherwise. *)
-Definition push_char (c : byte) : bytes :=
-  if (c <? 128)%N then [c] else [(192 + c / 64)%N; (128 + c mod 64)%N].
+(** [String::from_utf8_lossy] (core::str::lossy::Utf8Chunks): every maximal invalid prefix of an
+    ill-formed sequence becomes U+FFFD (EF BF BD); valid UTF-8 is unchanged.  (Same definition as
+    the one coq/Prep/Codec.v validates against the real decoder; copied so that this directory
+    does not depend on another property's files.) *)
+Definition cont (b : byte) : bool := ((128 <=? b) && (b <=? 191))%N.
+Definition REPL : bytes := [239; 191; 189]%N.
+Definition ok3 (b c : byte) : bool :=
+  (if b =? 224 then (160 <=? c) && (c <=? 191)
+   else if b =? 237 then (128 <=? c) && (c <=? 159)
+   else (128 <=? c) && (c <=? 191))%N.
+Definition ok4 (b c : byte) : bool :=
+  (if b =? 240 then (144 <=? c) && (c <=? 191)
+   else if b =? 244 then (128 <=? c) && (c <=? 143)
+   else (128 <=? c) && (c <=? 191))%N.
 
-(** [cur] is [tmp] reversed, [acc] is [buf] reversed.  [None] = panic: the inner
-    [while c != 0 { ..; c = bytes.get_u8() }] runs off the end when the last string has no
-    terminator. *)
-Fixpoint cstrings (s : bytes) (cur : bytes) (acc : list bytes) : option (list bytes) :=
+Fixpoint utf8_lossy (s : bytes) : bytes :=
   match s with
-  | [] => match cur with [] => Some (rev acc) | _ => None end
-  | c :: r =>
-    if (c =? 0)%N
-    then cstrings r [] (match cur with [] => acc | _ => rev cur :: acc end)   (* empty strings are skipped *)
-    else cstrings r (rev (push_char c) ++ cur) acc
+  | [] => []
+  | b :: r =>
+    if (b <? 128)%N then b :: utf8_lossy r
+    else if ((194 <=? b) && (b <=? 223))%N then
+      match r with
+      | c1 :: r1 => if cont c1 then b :: c1 :: utf8_lossy r1 else REPL ++ utf8_lossy r
+      | [] => REPL
+      end
+    else if ((224 <=? b) && (b <=? 239))%N then
+      match r with
+      | c1 :: r1 =>
+        if ok3 b c1 then
+          match r1 with
+          | c2 :: r2 => if cont c2 then b :: c1 :: c2 :: utf8_lossy r2 else REPL ++ utf8_lossy r1
+          | [] => REPL
+          end
+        else REPL ++ utf8_lossy r
+      | [] => REPL
+      end
+    else if ((240 <=? b) && (b <=? 244))%N then
+      match r with
+      | c1 :: r1 =>
+        if ok4 b c1 then
+          match r1 with
+          | c2 :: r2 =>
+            if cont c2 then
+              match r2 with
+              | c3 :: r3 => if cont c3 then b :: c1 :: c2 :: c3 :: utf8_lossy r3 else REPL ++ utf8_lossy r2
+              | [] => REPL
+              end
+            else REPL ++ utf8_lossy r1
+          | [] => REPL
+          end
+        else REPL ++ utf8_lossy r
+      | [] => REPL
+      end
+    else REPL ++ utf8_lossy r
   end.
 
-Fixpoint pairs (l : list bytes) : list (bytes * bytes) :=
-  match l with
-  | k :: v :: r => (k, v) :: pairs r
-  | _ => []
+(** [read_cstring] (messages.rs:189-197): the bytes up to the first NUL, decoded; [None] = no
+    terminator = [Err(ClientBadStartup)] (no panic any more). *)
+Fixpoint split0 (s : bytes) : option (bytes * bytes) :=
+  match s with
+  | [] => None
+  | c :: r => if (c =? 0)%N then Some ([], r)
+              else match split0 r with Some (p, q) => Some (c :: p, q) | None => None end
+  end.
+
+Definition read_cstring (s : bytes) : option (bytes * bytes) :=
+  match split0 s with Some (p, r) => Some (utf8_lossy p, r) | None => None end.
+
+(** messages.rs:199-208: name, value, name, value, ...; the list ends at the first empty name or at
+    the end of the bytes; a value may be empty.  [acc] is reversed.  [None] = [Err]. *)
+Fixpoint params_loop (fuel : nat) (s : bytes) (acc : list (bytes * bytes)) : option (list (bytes * bytes)) :=
+  match fuel with
+  | O => Some (rev acc)
+  | S f =>
+    match s with
+    | [] => Some (rev acc)                                   (* !bytes.has_remaining() *)
+    | _ =>
+      match read_cstring s with
+      | None => None
+      | Some ([], _) => Some (rev acc)                       (* name.is_empty() => break *)
+      | Some (name, r) =>
+        match read_cstring r with
+        | None => None
+        | Some (v, r') => params_loop f r' ((name, v) :: acc)
+        end
+      end
+    end
+  end.
+
+Definition parse_params (payload : bytes) : option (list (bytes * bytes)) :=
+  match params_loop (length payload) payload [] with
+  | None => None
+  | Some [] => None                                          (* messages.rs:211: at least one pair *)
+  | Some l => Some l
   end.
 
 (** [HashMap::insert] in order: the last occurrence of a key wins. *)
@@ -135,25 +208,23 @@ Fixpoint lookup (k : bytes) (l : list (bytes * bytes)) : option bytes :=
     end
   end.
 
-Inductive ps_result := PsOk (params : list (bytes * bytes)) | PsBadStartup | PsPanic.
+Inductive ps_result := PsOk (params : list (bytes * bytes)) | PsBadStartup.
 
 Definition parse_startup (payload : bytes) : ps_result :=
-  match cstrings payload [] [] with
-  | None => PsPanic
-  | Some buf =>
-    if (Nat.odd (length buf) || (length buf <? 2)%nat) then PsBadStartup      (* messages.rs:206 *)
-    else match lookup s_user (pairs buf) with
-         | None => PsBadStartup                                                (* messages.rs:228 *)
-         | Some _ => PsOk (pairs buf)
-         end
+  match parse_params payload with
+  | None => PsBadStartup
+  | Some l =>
+    match lookup s_user l with
+    | None => PsBadStartup                                   (* messages.rs:225 *)
+    | Some _ => PsOk l
+    end
   end.
 
 (** client.rs:438-458: who the client claims to be.  [database] defaults to the user name. *)
-Inductive id_result := IdOk (name db : bytes) | IdBadStartup | IdMissingUser | IdPanic.
+Inductive id_result := IdOk (name db : bytes) | IdBadStartup | IdMissingUser.
 
 Definition ident (payload : bytes) : id_result :=
   match parse_startup payload with
-  | PsPanic => IdPanic
   | PsBadStartup => IdBadStartup
   | PsOk params =>
     match lookup s_user params with
@@ -413,7 +484,6 @@ Definition admin_md5 (c : cfg) (e : auth_env) (name salt rest : bytes) : result 
 Definition startup (c : cfg) (shutting_down : bool) (salt : bytes) (payload rest : bytes)
            (e : auth_env) : result :=
   match ident payload with
-  | IdPanic => mk TaskPanic [] [] (cached e)
   | IdBadStartup => mk (Rejected WBadStartup) [] [] (cached e)
   | IdMissingUser => mk (Rejected WMissingUser) [] [] (cached e)
   | IdOk name db =>
